@@ -4,7 +4,7 @@
 Require Extraction.
 Require Import ExtrOcamlBasic.
 From RX Require Import Generated.
-From RX.Model Require Import Base CharClass Stream Tokenizer Doc Builder Parse Api Summary Debug.
+From RX.Model Require Import Base CharClass Stream Tokenizer Doc Builder Parse Api Summary Debug ErrDisplay.
 Extraction Language OCaml.
 Set Extraction KeepSingleton.
 Extraction "model.ml"
@@ -20,4 +20,4 @@ Extraction "model.ml"
   Api.sit_next_back Api.sit_nth Api.sit_len Api.sit_list Api.tag_name Api.has_tag_name
   Api.attribute_node Api.attribute Api.has_attribute Api.default_namespace Api.lookup_namespace_uri
   Api.lookup_prefix Api.attr_eqb Api.attr_range_qname Api.attr_range_value Api.node_eqb Api.node_cmp
-  Api.get_node_id Api.attr_ename Api.ns_uri_at Summary.summary Debug.debug_document.
+  Api.get_node_id Api.attr_ename Api.ns_uri_at Summary.summary Debug.debug_document ErrDisplay.error_display.
